@@ -88,7 +88,8 @@ type busWriter struct {
 }
 
 func (w *busWriter) Write(p []byte) (n int, err error) {
-	if uint32(len(p)) >= w.o+w.end {
+	// refuse a write that does not fit into what is left of the bank window:
+	if uint32(len(p)) > w.end-(w.start+w.o) {
 		err = io.ErrUnexpectedEOF
 		return
 	}
